@@ -34,21 +34,22 @@ func IntelName(cn string) pkix.Name {
 
 // CertSpec describes one certificate; zero values mean "as Intel issues it".
 type CertSpec struct {
-	CN         string
-	Name       *pkix.Name // overrides CN when set
-	Serial     *big.Int
-	NotBefore  time.Time
-	NotAfter   time.Time
-	IsCA       bool
-	Key        *Key
-	CRLDP      []string
-	SGXExt     []byte // raw value of the SGX extension (leaf only)
-	NoSGXExt   bool
-	ExtraExts  []pkix.Extension
-	IssuerName *pkix.Name // claims another issuer than the parent's subject
-	SigAlg     x509.SignatureAlgorithm
-	MaxPathLen int
-	NoCRLDP    bool
+	CN          string
+	Name        *pkix.Name // overrides CN when set
+	Serial      *big.Int
+	NotBefore   time.Time
+	NotAfter    time.Time
+	IsCA        bool
+	Key         *Key
+	CRLDP       []string
+	SGXExt      []byte // raw value of the SGX extension (leaf only)
+	NoSGXExt    bool
+	ExtraExts   []pkix.Extension
+	IssuerName  *pkix.Name // claims another issuer than the parent's subject
+	SigAlg      x509.SignatureAlgorithm
+	MaxPathLen  int
+	NoCRLDP     bool
+	ExtKeyUsage []x509.ExtKeyUsage // extended key usage extension (none by default, as in Intel's certificates)
 }
 
 // MakeCert issues a certificate for spec, naming parent as issuer (nil = self
@@ -97,6 +98,7 @@ func MakeCert(spec CertSpec, parent *x509.Certificate, signer *Key) *x509.Certif
 	} else {
 		tmpl.KeyUsage = x509.KeyUsageDigitalSignature | x509.KeyUsageContentCommitment
 	}
+	tmpl.ExtKeyUsage = spec.ExtKeyUsage
 	if !spec.NoCRLDP {
 		tmpl.CRLDistributionPoints = spec.CRLDP
 		if tmpl.CRLDistributionPoints == nil {
@@ -153,6 +155,9 @@ type Platform struct {
 	// CPUSVNBlob, when non-nil, is the content of the opaque CPUSVN octet string (element 18); by default it
 	// repeats the sixteen component values, as Intel issues it.
 	CPUSVNBlob []byte
+	// TcbOrder, when non-nil, is the order in which the 18 TCB elements are listed (indices into the
+	// canonical order: components 1..16, PCESVN, CPUSVN).
+	TcbOrder []int
 }
 
 // Blob is the content of the CPUSVN octet string.
@@ -322,6 +327,13 @@ func SGXTcbElem(tcb [][]byte) []byte {
 // SGXExtension is the extension value as Intel lays it out.
 func SGXExtension(p Platform) []byte {
 	top, tcb := SGXElems(p)
+	if p.TcbOrder != nil {
+		re := make([][]byte, 0, len(tcb))
+		for _, k := range p.TcbOrder {
+			re = append(re, tcb[k])
+		}
+		tcb = re
+	}
 	return DERSeq(top["ppid"], SGXTcbElem(tcb), top["pceid"], top["fmspc"], top["type"])
 }
 
